@@ -149,11 +149,11 @@ var c11Ops = []c11Op{
 	}},
 	{"validate-typename-everywhere", c11Validate(`{ __typename pet { __typename owner { __typename pets { __typename } } } node(id: 1) { __typename } named { __typename } search { __typename } trio { __typename ... on Robot { __typename } } }`)},
 	// @oneOf input objects supplied through variables: one member, then the other (nested under a list too)
-	{"coerce-oneof-first-member", c11CoerceDoc(`query O($o: OneIn, $os: [OneIn!]) { one(arg: $o) a: one(arg: {a: 1}) }`, func() map[string]any {
-		return map[string]any{"o": map[string]any{"a": 1}, "os": []any{map[string]any{"a": 2}}}
+	{"coerce-oneof-first-member", c11CoerceDoc(`query O($o: OneIn) { one(arg: $o) a: one(arg: {a: 1}) }`, func() map[string]any {
+		return map[string]any{"o": map[string]any{"a": 1}}
 	})},
-	{"coerce-oneof-second-member", c11CoerceDoc(`query O($o: OneIn, $os: [OneIn!]) { one(arg: $o) b: one(arg: {b: "x"}) }`, func() map[string]any {
-		return map[string]any{"o": map[string]any{"b": "x"}, "os": []any{map[string]any{"b": "y"}, map[string]any{"a": 3}}}
+	{"coerce-oneof-second-member", c11CoerceDoc(`query O($o: OneIn) { one(arg: $o) b: one(arg: {b: "x"}) }`, func() map[string]any {
+		return map[string]any{"o": map[string]any{"b": "x"}}
 	})},
 	{"validate-suggestions", c11Validate(`{ nam pett { id } node(idd: 1) { id } search(q: 1, ks: [DOGG]) { __typename } ... on Pett { id } }`)},
 	{"validate-introspection", c11Validate(`{ __schema { types { ...T } } __type(name: "Pet") { fields { name } } } fragment T on __Type { name fields { name } }`)},
